@@ -58,8 +58,17 @@ def case_strategy(draw):
         s.update({"position": pos, "orientation": ori})
         return s
 
+    mesh_show = None
     if kind == "body":
         members = [posed(draw(st.sampled_from(BODIES + ["Triangle"])))]
+        if members[0]["cls"] == "TriangularMesh" and draw(st.booleans()):
+            # a mesh of two disconnected bodies, shown with the mesh diagnostics switched on (non-default style)
+            V = np.asarray(members[0]["vertices"], dtype=float)
+            shift = np.array([(V[:, 0].max() - V[:, 0].min()) * gen.r6(draw(gen.ufloat(1.3, 2.0))), 0.0, 0.0])
+            n0 = len(V)
+            members[0]["vertices"] = V.tolist() + (V + shift).tolist()
+            members[0]["faces"] = [list(f) for f in members[0]["faces"]] + [[int(i) + n0 for i in f] for f in members[0]["faces"]]
+            mesh_show = draw(st.sampled_from([["disconnected"], ["disconnected", "open"], ["disconnected", "selfintersecting", "grid"], ["grid"]]))
     elif kind == "collection":
         members = [posed(draw(st.sampled_from(BODIES))) for _ in range(draw(st.integers(2, 4)))]
     elif kind == "current":
@@ -89,7 +98,7 @@ def case_strategy(draw):
                 "fps": draw(st.sampled_from([None, None, 3, 10])),
                 "slider": draw(st.sampled_from([None, True, False]))}
         frames, fr = "default", None
-    return {"kind": kind, "members": members, "nested": draw(st.booleans()), "frames": fr, "animation": anim,
+    return {"kind": kind, "members": members, "nested": draw(st.booleans()), "frames": fr, "animation": anim, "mesh_show": mesh_show,
             "units": draw(st.sampled_from(["default", "default", "auto", "m", "cm", "mm", "µm"])),
             "backend": "plotly" if anim else draw(st.sampled_from(["plotly", "plotly", "plotly", "matplotlib"])),
             "style_dict": draw(st.booleans()), "frames_via": draw(st.sampled_from(["kwarg", "object"]))}
@@ -153,6 +162,9 @@ def run_case(case, ctx):
         else:
             for o in objs:
                 o.style.path.frames = _copy.deepcopy(frames)
+    for what in case.get("mesh_show") or []:
+        kw[f"style_mesh_{what}_show"] = True
+        ctx.label("mesh_diagnostics_shown")
     caller_style = None
     if case["style_dict"]:
         caller_style = {"opacity": 0.7, "path": {"line": {"width": 2}}}
